@@ -47,6 +47,14 @@ theorem SPD.eq_zero {B : E →ₗ[ℂ] E} (h : SPD B) (p : E) (hp : ⟪p, B p⟫
   rw [hp] at this
   simp at this
 
+theorem re_inner_symm (x y : E) : (⟪x, y⟫).re = (⟪y, x⟫).re := by
+  rw [← inner_conj_symm, Complex.conj_re]
+
+theorem re_inner_self (x : E) : (⟪x, x⟫).re = ‖x‖ ^ 2 := inner_self_eq_norm_sq (𝕜 := ℂ) x
+
+theorem re_inner_self_pos {x : E} (hx : x ≠ 0) : 0 < (⟪x, x⟫).re := by
+  rw [re_inner_self]; exact pow_pos (norm_pos_iff.mpr hx) 2
+
 theorem CGState.ext' {K V : Type*} {a b : CGState K V} (hx : a.x = b.x) (hr : a.r = b.r)
     (hp : a.p = b.p) (hrr : a.rr = b.rr) : a = b := by
   cases a; cases b; simp_all
